@@ -137,6 +137,16 @@ def r29(ctx: Ctx) -> RuleReport:
                 good = True
         rep.add(f'{de.fq}: inverts exactly when is_role_inverted(triple[1])', de.loc(), 'ok' if good else 'violation',
                 '' if good else 'no call of self.invert(triple) guarded by self.is_role_inverted(triple[1])')
+        in_loop = False
+        for c in inv_calls:
+            n = c
+            while id(n) in pm:
+                n = pm[id(n)]
+                if isinstance(n, (ast.While, ast.For)):
+                    in_loop = True
+        rep.add(f'{de.fq}: a triple is deinverted once, not repeatedly', de.loc(), 'violation' if in_loop else 'ok',
+                'the inversion sits in a loop: an over-inverted role (:ARG0-of-of) is deinverted twice, which the documented '
+                'reading forbids (only canonicalisation removes pairs of inversions)' if in_loop else '')
         rets = [n for n in walk_local(de.node) if isinstance(n, ast.Return)]
         rep.add(f'{de.fq}: returns the (possibly inverted) triple', de.loc(),
                 'ok' if rets and all(r.value is not None and norm(r.value) == tp for r in rets) else 'violation')
